@@ -13,6 +13,22 @@ NA = {
 }
 CLAIMS = json.load(open(os.path.join(HERE, "claims.json")))
 
+def technique_of(p, us):
+    verus = [u["name"] for u in us if u.get("backend") == "verus"]
+    np = nb = 0
+    for u in us:
+        for h in u.get("kani", {}).get("harnesses", []):
+            if h.get("props") and p not in h["props"]:
+                continue
+            if h.get("level", "B") == "P": np += 1
+            else: nb += 1
+    parts = []
+    if verus: parts.append("Verus/SMT pre- and postconditions, loop invariants and lemmas (units " + ", ".join(verus) + ")")
+    if np: parts.append(f"Kani/CBMC harnesses that are complete for their function (loop-free, full symbolic domain): {np}")
+    if nb: parts.append(f"Kani/CBMC bounded stand-ins with stated bounds (reported as bounded, never counted as proved): {nb}")
+    return "contract-based deductive verification of functions extracted verbatim from /repo's working tree on every run (callee contracts as stand-ins, recursion cut at the callee contract): " + "; ".join(parts)
+
+
 def main():
     units = run.all_units()
     props = sorted({p for u in units for p in u.get("serves", {})})
@@ -31,7 +47,7 @@ def main():
             "engine": "vc",
             "level_claimed": {"category": c.get("category", "proof"), "text": c["text"], "design_ref": f"DESIGN.md §2 {p}"},
             "level_note": c["note"] + " Units: " + ", ".join(us) + ".",
-            "technique": c.get("technique", "contract-based deductive verification: Verus (SMT) and Kani/CBMC function-level obligations on functions extracted verbatim from /repo on every run"),
+            "technique": c.get("technique", technique_of(p, [u for u in units if p in u.get("serves", {})])),
         })
     na = [{"property_id": k, "reason": v} for k, v in NA.items() if k not in props]
     for p in [f"C{i:02d}" for i in range(1, 21)]:
